@@ -1,17 +1,17 @@
 (* Properties/C16.v -- diagrams draw the quantities their definitions prescribe.
    PARTIAL.  Model/Diagrams.v holds executable models of the defining statistics of: -hist, -sort,
    obsfcst (lines and shaded bands), qq, scatter points, change, cond, reliability, discrimination, roc,
-   pithist, spreadskill, freq, marginal, error, taylor, performance and timeseries lines; standard line plots
+   pithist, spreadskill, freq, marginal, error, taylor, performance, economicvalue and timeseries lines; standard line plots
    (also with -acc) are compared with the -type csv table
    that C12 ties to the Data model.  ./check C16 reads the coordinates back from the matplotlib
    artists and compares them with these models (vm_compute, float instance) on the arrays the real
-   Data object delivers.  Not modelled: droc, murphy, economicvalue,
+   Data object delivers.  Not modelled: droc, murphy,
    bsdecomp, igncontrib, fss, autocorr/autocov, against, invreliability, meteo, maps,
    rank and impact views, the quantile lines of scatter.
    The theorems below are about the BINNING rules of the model (Model/Diagrams.member), for all
    strictly increasing edges and all values: "every valid case falls in exactly one bin". *)
 From Coq Require Import Reals ZArith List Bool Lra.
-From VF Require Import Base.Num Base.Vec Base.Event Gen.Gen_interval Model.Diagrams Proofs.RList Proofs.C16_proofs Proofs.C16_hist.
+From VF Require Import Base.Num Base.Vec Base.Event Gen.Gen_interval Model.Diagrams Proofs.RList Proofs.C16_proofs Proofs.C16_hist Proofs.C16_econ.
 Import ListNotations.
 Local Open Scope R_scope.
 
@@ -60,6 +60,15 @@ Theorem C16_freq_values_are_shares : forall ivs v y, In y (freq_line XR ivs v) -
   exists r, y = Fin r /\ 0 <= r <= 1.
 Proof. exact freq_line_in_unit_interval. Qed.
 
+(* -m economicvalue: at every cost-loss ratio each case is in exactly one of the two groups (acts / does not act),
+   also when its probability EQUALS the ratio (it then acts) *)
+Theorem C16_economic_value_groups_partition_the_cases : forall a ps,
+  (count_true (econ_acts XR (Fin a) (map (@Fin R) ps)) + count_true (econ_waits XR (Fin a) (map (@Fin R) ps)))%nat = length ps.
+Proof. exact econ_partition. Qed.
+Theorem C16_probability_equal_to_the_ratio_acts : forall a : R,
+  n_leb XR (Fin a) (Fin a) = true /\ n_ltb XR (Fin a) (Fin a) = false.
+Proof. exact econ_equal_acts. Qed.
+
 (* non-vacuity *)
 Example C16_example : increasing [0; 1/2; 1] /\ [0; 1/2; 1] <> [] /\ 0 <= 1 <= last_edge [0; 1/2; 1].
 Proof. unfold last_edge; cbn. repeat split; try lra. discriminate. Qed.
@@ -73,3 +82,4 @@ Print Assumptions C16_left_open_bins_lose_the_bottom_edge.
 Print Assumptions C16_obsfcst_bands_pair_symmetric_quantiles.
 Print Assumptions C16_fill_polygon_covers_all_valid_points.
 Print Assumptions C16_hist_shares_add_up_to_100.
+Print Assumptions C16_economic_value_groups_partition_the_cases.
